@@ -134,6 +134,17 @@ def declare(spec):
     spec.define('yielded_none', lambda X, g: ZV(yvn_arr(X)[deref(g).t]))
     spec.define('yielded', lambda X, g: ZV(yvv_arr(X)[deref(g).t]))
     spec._co_yv_value = lambda X, g: yvv_arr(X)[g]
+    # ended(g): the latest step of g returned or raised instead of yielding
+    end_arr = arr_ghost('ended', z3.ArraySort(Gen.sort, z3.BoolSort()))
+    spec.define('ended', lambda X, g: ZV(end_arr(X)[deref(g).t]))
+    # marks over positions (ghost arrays Int -> Bool)
+    MARKS = TScalar(z3.ArraySort(z3.IntSort(), z3.BoolSort()))
+    spec._co_MARKS = MARKS
+    spec.define('no_marks', lambda X: ZV(z3.K(z3.IntSort(), z3.BoolVal(False))))
+    spec.define('mark', lambda X, a, i, b: ZV(z3.Store(deref(a).t, X.num(i), X._z(X.truth(b)))))
+    spec.define('marked', lambda X, a, i: ZV(deref(a).t[X.num(i)]))
+    spec._co_POS = TScalar(z3.ArraySort(z3.IntSort(), z3.IntSort()))
+    spec.define('place', lambda X, a, i: ZV(deref(a).t[X.num(i)]))
     spec.define('need', lambda X, r: ZV(need_arr(X)[deref(r).t]))
     spec.define('since', lambda X, r: ZV(since_arr(X)[deref(r).t]))
     spec._co_arrs = (need_arr, since_arr)
@@ -244,7 +255,9 @@ def declare(spec):
         except PyRaise:
             # the step ended the generator (or failed): it yielded nothing
             X.ghost['yv_none'] = z3.Store(yvn_arr(X), v.t, z3.BoolVal(True))
+            X.ghost['ended'] = z3.Store(end_arr(X), v.t, z3.BoolVal(True))
             raise
+        X.ghost['ended'] = z3.Store(end_arr(X), v.t, z3.BoolVal(False))
         rl = TOpt(TReal).to_leaves(r)
         X.ghost['yv_none'] = z3.Store(yvn_arr(X), v.t, rl[0])
         X.ghost['yv_val'] = z3.Store(yvv_arr(X), v.t, rl[1])
@@ -329,7 +342,8 @@ def register_process(spec):
     ALLF = ['self._generators', 'self._active_queue', 'self._wait_queue', 'self._kill_queue',
             'self._promises', 'self._timer']
     HAV = ALLF + ['ghost:steps', 'ghost:log', 'ghost:cnt', 'ghost:alloc_WRec', 'WRec.generator',
-                  'WRec.wait_time', 'Prom.value', 'ghost:need', 'ghost:since', 'ghost:yv_none', 'ghost:yv_val']
+                  'WRec.wait_time', 'Prom.value', 'ghost:need', 'ghost:since', 'ghost:yv_none', 'ghost:yv_val',
+                  'ghost:ended']
     G_ = 'self._generators'
     waiting0 = '(g in old(%s) and old(%s)[g] != None)' % (G_, G_)
     kept = '(g in %s and %s[g] == old(%s)[g])' % (G_, G_, G_)
@@ -361,13 +375,44 @@ def register_process(spec):
             'all(implies(old(allocated(r)), need(r) == old(need(r)) and since(r) == old(since(r)) + dt) '
             'for r in WRec)', 'prop'),
     }
+    A0 = 'old(self._active_queue)'
+    A = 'self._active_queue'
+    elapsed = '(since(old(%s)[g]) >= need(old(%s)[g]))' % (G_, G_)
+    inQ1 = '(0 <= index_in(Q1, g) and index_in(Q1, g) < len(Q1) - 1 and Q1[index_in(Q1, g)] == g)'
+    once = '(stepped(Q1[i]) == old(stepped(Q1[i])) + (0 if marked(skipped, i) else 1))'
+
+    def stay(x):
+        return ('(stepped(%s) > old(stepped(%s)) and not ended(%s) and (yielded_none(%s) or yielded(%s) <= 0))'
+                % (x, x, x, x, x))
+    STEPS = {
+        # Q1 (ghost): the coroutines due in this frame, in the order they are run; skipped marks
+        # the positions whose coroutine had a kill pending when its turn came
+        'due-are-the-runnable-ones-in-order-then-the-woken': (
+            'len(Q1) >= len(%s) and all(implies(1 <= i and i < len(%s), Q1[i - 1] == %s[i]) for i in Int) and '
+            'all(implies(len(%s) - 1 <= i and i < len(Q1) - 1, let(g=Q1[i], body=%s and %s)) for i in Int)'
+            % (A0, A0, A0, A0, waiting0, elapsed), 'prop'),
+        'every-woken-coroutine-is-due': (
+            'all(implies(%s and %s and not (g in old(self._kill_queue)), %s) for g in Gen)'
+            % (waiting0, elapsed, inQ1), 'prop'),
+        'each-due-coroutine-advanced-exactly-once': (
+            'all(implies(0 <= i and i < len(Q1) - 1, %s) for i in Int)' % once, 'prop'),
+        'nothing-else-advanced': (
+            'all(implies(not %s, stepped(g) == old(stepped(g))) for g in Gen)' % inQ1, 'prop'),
+        'those-that-stay-runnable-keep-their-order': (
+            'all(implies(0 <= i and i < k and k < len(Q1) - 1 and %s and %s, '
+            '0 < place(W, i) and place(W, i) < place(W, k) and place(W, k) < len(%s) and '
+            '%s[place(W, i)] == Q1[i] and %s[place(W, k)] == Q1[k]) for i in Int for k in Int)'
+            % (stay('Q1[i]'), stay('Q1[k]'), A, A, A), 'prop'),
+    }
     C(q + 'process', params=dict(self=CP, dt=TReal), props=['C08', 'C09'],
       requires=['wf(self)', 'dt >= 0', 'len(self._active_queue) >= 1 and self._active_queue[0] == None'],
       modifies=HAV, open_effect=True,
       ensures=dict({
           'wf': ('wf(self)', 'prop'),
           'frame-boundary-restored': 'self._active_queue[0] == None',
-      }, **TIMING),
+      }, **dict(TIMING, **STEPS)),
+      ghost_results={'Q1': ('named', 'Q1', TList(Gen)), 'skipped': ('named', 'skipped', spec._co_MARKS),
+                     'W': ('named', 'W', spec._co_POS)},
       raises={'$OtherException': {'from-a-coroutine-body': 'True'}})
     spec.contracts[q + 'process'].ghost_prologue = advance_clocks
     INV_T = {
@@ -375,6 +420,19 @@ def register_process(spec):
         'alloc-monotone': 'all(implies(old(allocated(r)), allocated(r)) for r in WRec)',
     }
     spec.sites['CoroutineProcessor.process'] = {'reenter': True}
+    def w_init(X, env):
+        return ZV(z3.Const(X.fresh_name('W_init'), spec._co_POS.sort))
+
+    def w_step(X, now, env_head):
+        # every iteration consumes the head: all places move up by one; the head, if it was
+        # rotated, is now last
+        W0 = deref(now['W']).t
+        j0 = X.num(now['j'])
+        W1 = z3.Const(X.fresh_name('W_step'), W0.sort())
+        i = z3.Int('i_w')
+        A_now = deref(X.read_field(deref(now['self']).t, '_active_queue'))
+        X.assume(forall([i], W1[i] == z3.If(i == j0, A_now.n - 1, W0[i] - 1), patterns=[W1[i]]))
+        return ZV(W1)
     spec.loop(q + 'process', 0, invariants=dict({
         'wf': 'wf(self)',
         'sentinel-first': 'len(self._active_queue) >= 1 and self._active_queue[0] == None',
@@ -384,6 +442,13 @@ def register_process(spec):
         'no-new-waits': 'all(implies(g in %s and %s[g] != None, %s and %s) for g in Gen)'
                         % (G_, G_, waiting0, kept),
         'nothing-stepped': 'all(stepped(g) == old(stepped(g)) for g in Gen)',
+        # runnable ones keep their places, woken ones are appended
+        'runnable-keep-places': 'is_prefix(%s, %s)' % (A0, A),
+        'appended-were-woken': 'all(implies(len(%s) <= i and i < len(%s), let(g=%s[i], body=%s and %s)) '
+                               'for i in Int)' % (A0, A, A, waiting0, elapsed),
+        'kills-as-at-entry': 'all(implies(g in self._kill_queue, g in old(self._kill_queue)) for g in Gen)',
+        'woken-are-runnable': 'all(implies(%s and not %s and not (g in old(self._kill_queue)), '
+                              'g in %s and %s[g] == None) for g in Gen)' % (waiting0, kept, G_, G_),
     }, **INV_T), havoc=HAV, vars={'gen': Gen})
     spec.loop(q + 'process', 1, invariants=dict({
         'wf': 'wf(self)',
@@ -391,8 +456,27 @@ def register_process(spec):
         'positive-yield': TIMING['positive-yield-starts-that-wait'][0],
         'other-yields': TIMING['other-yields-mean-next-frame'][0],
         'timer-fixed': 'self._timer == T1',
+        'progress': '0 <= j and j <= len(Q1) - 1',
+        'still-to-do': 'len(Q1) - 1 - j < len(%s) and %s[len(Q1) - 1 - j] == None and '
+                       'all(implies(0 <= i and i < len(Q1) - 1 - j, %s[i] == Q1[j + i]) for i in Int)' % (A, A, A),
+        'done-once': 'all(implies(0 <= i and i < j, %s) for i in Int)' % once,
+        'rest-not-yet': 'all(implies(j <= i and i < len(Q1) - 1, stepped(Q1[i]) == old(stepped(Q1[i]))) '
+                        'for i in Int)',
+        'nothing-else': STEPS['nothing-else-advanced'][0],
+        # those rotated so far sit behind the sentinel, in the order of their turns; W (ghost)
+        # gives the place of each in the queue
+        'rotated-are-behind': 'all(implies(0 <= i and i < j and %s, len(Q1) - 1 - j < place(W, i) and '
+                              'place(W, i) < len(%s) and %s[place(W, i)] == Q1[i]) for i in Int)'
+                              % (stay('Q1[i]'), A, A),
+        'rotated-in-order': 'all(implies(0 <= i and i < k and k < j and %s and %s, '
+                            'place(W, i) < place(W, k)) for i in Int for k in Int)'
+                            % (stay('Q1[i]'), stay('Q1[k]')),
     }, **INV_T), havoc=HAV, vars={'gen': Gen, 'wait': TOpt(TReal), 'waiting_gen': WRec},
-        entry={'T1': 'self._timer'})
+        entry={'T1': 'self._timer', 'Q1': 'self._active_queue'},
+        head={'hk': 'self._active_queue[0] in self._kill_queue'},
+        ghost={'j': (TInt, '0', 'j + 1'),
+               'skipped': (spec._co_MARKS, 'no_marks()', 'mark(skipped, j, hk)'),
+               'W': (spec._co_POS, w_init, w_step)})
 
 
 _reg_co0 = register
